@@ -257,15 +257,30 @@ const TEMPLATES: &[(&str, &str)] = &[
 
 pub fn gen_hostile(c: &mut Choices) -> DiffCase {
     let (name, tmpl) = TEMPLATES[c.below(TEMPLATES.len())];
-    let mut body = tmpl.to_string();
+    // templates that cannot trap are instantiated eight times per program (each in its own scope) so that
+    // pairs of boundary values (NaN x ordered, MIN x -1, …) are covered densely; the others once, because the
+    // first trap ends the program
+    const NEVER_TRAPS: &[&str] = &["float-cmp", "float-arith", "int-cmp", "float-to-int", "int-narrow", "bits", "overflowing", "rotate", "sort", "string-parse"];
+    let copies = if NEVER_TRAPS.contains(&name) { 8 } else { 1 };
+    let mut body = String::new();
     let (t, v) = ELEMS[c.below(ELEMS.len())];
     let mut args = vec![];
-    // one value per placeholder kind per program ({I} appearing several times gets the same value)
-    for (ph, pool) in [("{L}", LENS), ("{I}", IDXS), ("{K}", SHIFTS), ("{X}", XS), ("{Y}", XS), ("{W2}", X32), ("{W}", X32), ("{F2}", FS), ("{F}", FS)] {
-        if body.contains(ph) {
-            let val = pool[c.below(pool.len())];
-            body = body.replace(ph, val);
-            args.push(format!("{}={}", ph.trim_matches(|ch| ch == '{' || ch == '}'), val));
+    for copy in 0..copies {
+        let mut one = tmpl.to_string();
+        // one value per placeholder kind per instance ({I} appearing several times gets the same value)
+        for (ph, pool) in [("{L}", LENS), ("{I}", IDXS), ("{K}", SHIFTS), ("{X}", XS), ("{Y}", XS), ("{W2}", X32), ("{W}", X32), ("{F2}", FS), ("{F}", FS)] {
+            if one.contains(ph) {
+                let val = pool[c.below(pool.len())];
+                one = one.replace(ph, val);
+                if copy == 0 {
+                    args.push(format!("{}={}", ph.trim_matches(|ch| ch == '{' || ch == '}'), val));
+                }
+            }
+        }
+        if copies > 1 {
+            body.push_str(&format!("{{ {one} }}; "));
+        } else {
+            body = one;
         }
     }
     if body.contains("{XR}") {
@@ -450,12 +465,12 @@ pub fn main(mode: Mode) -> i32 {
             ctx.run_known_reproducers(&hostile);
             let (cases, skipped) = corpus_cases(false);
             ctx.note_excluded("corpus programs with //= ignore", skipped as u64);
-            // quick: every third corpus program (which third depends on the seed); thorough: all of them
+            // quick: every fourth corpus program (which quarter depends on the seed); thorough: all of them
             let total_corpus = cases.len();
             let cases: Vec<_> = if ctx.thorough() {
                 cases
             } else {
-                let step = if std::env::var("VERIF_SCALE").is_ok() { 10 } else { 3 };
+                let step = if std::env::var("VERIF_SCALE").is_ok() { 10 } else { 4 };
                 cases.into_iter().skip((ctx.seed % step as u64) as usize).step_by(step).collect()
             };
             ctx.extra.insert("corpus_programs_total".into(), json!(total_corpus));
